@@ -52,7 +52,7 @@ def ob_key_schedule():
             W, kb = words_as_bytes("K", 4)
             res = ex.run_fn(c.find("Sm4Cipher::new"), [slice_ref(kb, "key")])
             return W, kb, res, ex
-        paths = explore(run)
+        paths = explore(run, max_paths=64)
         named = {"K%d" % i: z3.BitVec("K%d" % i, 32) for i in range(4)}
         check_all_panics(stats, paths, named)
         ctx, (W, kb, res, ex) = single(paths, "Sm4Cipher::new")
@@ -88,7 +88,7 @@ def ob_crypt(decrypt):
             W, bb = words_as_bytes("X", 4)
             res = ex.run_fn(c.find("Sm4Cipher::" + nm), [Ref(cc), slice_ref(bb, "block")])
             return rk, bb, res, cc, ex
-        paths = explore(run)
+        paths = explore(run, max_paths=64)
         named = {"X%d" % i: z3.BitVec("X%d" % i, 32) for i in range(4)}
         named.update({"rk%d" % i: z3.BitVec("rk%d" % i, 32) for i in range(32)})
         check_all_panics(stats, paths, named)
@@ -125,7 +125,7 @@ def ob_roundtrip(first):
             # history independence: a third call on the same object gives the same answer as the first
             r3 = ex.run_fn(c.find("Sm4Cipher::" + first), [Ref(cc), slice_ref(bb, "block")])
             return bb, r1, r2, r3, ex
-        paths = explore(run)
+        paths = explore(run, max_paths=64)
         named = {"X%d" % i: z3.BitVec("X%d" % i, 32) for i in range(4)}
         named.update({"rk%d" % i: z3.BitVec("rk%d" % i, 32) for i in range(32)})
         check_all_panics(stats, paths, named)
@@ -197,10 +197,67 @@ def ob_vectors():
                           "GB/T 32907 Annex example through the MIR executor and through the spec model", body)
 
 
+def _py_sm4(key, block, decrypt=False):
+    """pure-python SM4 written from GB/T 32907 (algebraic S-box table): returns (round keys, output block)"""
+    tab = specs.sm4_sbox_algebraic()
+    rol = lambda x, n: ((x << n) | (x >> (32 - n))) & 0xFFFFFFFF
+    tau = lambda x: (tab[x >> 24] << 24) | (tab[(x >> 16) & 255] << 16) | (tab[(x >> 8) & 255] << 8) | tab[x & 255]
+    FK = [0xa3b1bac6, 0x56aa3350, 0x677d9197, 0xb27022dc]
+    CK = [sum((((4 * i + j) * 7) & 0xFF) << (24 - 8 * j) for j in range(4)) for i in range(32)]
+    K = [int.from_bytes(key[4 * i:4 * i + 4], "big") ^ FK[i] for i in range(4)]
+    rk = []
+    for i in range(32):
+        b = tau(K[i + 1] ^ K[i + 2] ^ K[i + 3] ^ CK[i])
+        K.append(K[i] ^ b ^ rol(b, 13) ^ rol(b, 23))
+        rk.append(K[-1])
+    X = [int.from_bytes(block[4 * i:4 * i + 4], "big") for i in range(4)]
+    for i in range(32):
+        b = tau(X[i + 1] ^ X[i + 2] ^ X[i + 3] ^ (rk[31 - i] if decrypt else rk[i]))
+        X.append(X[i] ^ b ^ rol(b, 2) ^ rol(b, 10) ^ rol(b, 18) ^ rol(b, 24))
+    return rk, b"".join(X[35 - i].to_bytes(4, "big") for i in range(4))
+
+
+def ob_ce_search(seed):
+    """counterexample SEARCH on concrete keys (all-zero, all-one, counting, single-bit, seeded random): the MIR of new / encrypt / decrypt
+    executed by engine M on concrete inputs against the standard. It exists for changes the symbolic obligations cannot encode (e.g. a loop
+    whose trip count depends on key material): a `holds` here adds NOTHING to the claim; a mismatch is a concrete, natively replayed violation."""
+    def body(stats):
+        import random
+        c = load_crate(CRATE)
+        rnd = random.Random(seed * 1009 + 5)
+        keys = [bytes(16), bytes([255] * 16), bytes(range(16)), bytes.fromhex("0123456789abcdeffedcba9876543210")]
+        keys += [(1 << i).to_bytes(16, "big") for i in range(0, 128, 3)]
+        keys += [bytes(rnd.getrandbits(8) for _ in range(16)) for _ in range(24)]
+        keys += [bytes((rnd.getrandbits(8) if rnd.random() < 0.3 else 0) for _ in range(16)) for _ in range(24)]
+        assert _py_sm4(keys[3], keys[3])[1].hex() == "681edf34d206965e86b3e94f536e4246"
+        for key in keys:
+            blk = bytes(rnd.getrandbits(8) for _ in range(16))
+            ex = Ex(c, BV(), Ctx())
+            r = ex.run_fn(c.find("Sm4Cipher::new"), [slice_ref([Sc(b, "u8") for b in key], "k")])
+            cipher = ok_vec(r, "Sm4Cipher::new")
+            rk = [x.v for x in cipher.f[0].f]
+            srk, senc = _py_sm4(key, blk)
+            _, sdec = _py_sm4(key, blk, True)
+            cc = Cell(cipher, "cipher")
+            enc = bytes(x.v for x in ok_vec(ex.run_fn(c.find("Sm4Cipher::encrypt"), [Ref(cc), slice_ref([Sc(b, "u8") for b in blk], "b")]), "encrypt").f)
+            dec = bytes(x.v for x in ok_vec(ex.run_fn(c.find("Sm4Cipher::decrypt"), [Ref(cc), slice_ref([Sc(b, "u8") for b in blk], "b")]), "decrypt").f)
+            stats.n += 3
+            bad = "round keys" if rk != srk else "encrypt" if enc != senc else "decrypt" if dec != sdec else None
+            if bad:
+                nat = native("sm4_enc", key.hex(), blk.hex()) or ""
+                if bad == "decrypt" or nat == "ok:" + enc.hex():
+                    raise Violation("%s differ from GB/T 32907 for key %s, block %s (MIR executed concretely%s)" % (bad, key.hex(), blk.hex(), "; native run agrees with the MIR" if bad != "decrypt" else ""),
+                                    {"key": key.hex(), "block": blk.hex(), "library_encrypt": enc.hex(), "standard_encrypt": senc.hex(), "native": nat})
+                raise Inconclusive("MIR execution and native run disagree for key %s" % key.hex())
+        return {"keys": len(keys)}
+    return run_obligation("ce_search_concrete_keys", ["gm_sm4::Sm4Cipher::new", "gm_sm4::Sm4Cipher::encrypt", "gm_sm4::Sm4Cipher::decrypt"],
+                          "counterexample search only: 95 concrete keys x one block each (structured + seeded random); no claim is derived from a pass", body)
+
+
 def run(tier, seed, t0):
     build_replay()
     jobs = [ob_key_schedule, lambda: ob_crypt(False), lambda: ob_crypt(True), lambda: ob_roundtrip("encrypt"),
-            lambda: ob_roundtrip("decrypt"), ob_tables, ob_vectors]
+            lambda: ob_roundtrip("decrypt"), ob_tables, ob_vectors, lambda: ob_ce_search(seed)]
     res = run_parallel(jobs)
     if tier == "thorough":
         import kani
